@@ -25,7 +25,7 @@ TReset == /\ Is("Reset")
 TJudge == Is("Judge") /\ judge' = {Ev.props[i] : i \in 1..Len(Ev.props)} /\ UNCHANGED <<disk, wr, rd, us, mg, so, fs, it, pl>>
 
 \* lines that carry no obligation for this specification (validated elsewhere or informational)
-Ignored == {"Note", "Obs", "LeakCheck", "Spill", "MergeCall", "Exit", "PoolInit", "PoolDestroy", "Write"}
+Ignored == {"Note", "LeakCheck", "Spill", "MergeCall", "Exit", "PoolInit", "PoolDestroy", "Write"}
 TIgnore == l <= Len(Tr) /\ Ev.e \in Ignored /\ l' = l + 1 /\ UNCHANGED vars
 
 TMkOther  == (Is("MkFile") \/ Is("Symlink") \/ Is("Mkdir")) /\ MkOther(Ev.path, IF Has("h") THEN Ev.h ELSE "")
@@ -59,11 +59,20 @@ TNext     == Is("Next") /\ Intact          \* buffers handed out stayed intact u
                         /\ (IF Ev.ok THEN NextHit(Ev.i, Ev.k, Ev.v, IF Has("calls") THEN Ev.calls ELSE <<>>) ELSE NextMiss(Ev.i))
 TClose    == Is("Close") /\ Intact /\ Close(Ev.i)
 TSrcWrite == Is("SrcWrite") /\ SrcWrite(Ev.src, Ev.w, Ev.ok)
+Spills    == IF Has("spills") THEN Ev.spills ELSE <<>>
+TSInit    == Is("SInit") /\ SInit(Ev.s, Ev.maxmem, Ev.tmpdir, Ev.merge # 0, Ev.failtok, Ev.pool)
+TSAdd     == Is("SAdd") /\ SAdd(Ev.s, Ev.k, Ev.v, Ev.ok, Spills)
+TSIter    == Is("SIter") /\ SIter(Ev.s, Ev.i, Ev.null, Spills)
+TSWrite   == Is("SWrite") /\ SWrite(Ev.s, Ev.w, Ev.ok, Spills)
+TSDestroy == Is("SDestroy") /\ SDestroy(Ev.s)
+\* process-level observations are judged by the resource ledger (C18), not here
+TObs      == Is("Obs") /\ UNCHANGED vars
 
 TNext0 == \/ TReset \/ TJudge \/ TIgnore \/ TInfo \/ TDump \/ TFileStruct \/ TFileHash \/ TMkOther \/ TMkTable \/ TRm
           \/ TWInit \/ TWAdd \/ TWClose \/ TROpen \/ TRDestroy \/ TRMeta
           \/ TUInit \/ TUAdd \/ TUDestroy \/ TMInit \/ TMAdd \/ TMDestroy
           \/ TOpen \/ TSeek \/ TNext \/ TClose \/ TSrcWrite
+          \/ TSInit \/ TSAdd \/ TSIter \/ TSWrite \/ TSDestroy \/ TObs
 
 TSpec == TInit /\ [][TNext0]_tvars
 
